@@ -1,8 +1,11 @@
 // C02 encrypted file equals the documented format built from standard primitives.
 #include "../pipe.h"
+#include "../prodrun.h"
 
 static Verdict run_c02(const Case &c)
 {
+  if (c.get("kind") == "prod")
+    return run_prod(c, true); // the production binary (16 MiB chunks): what it writes is parsed by the format specification
   EncCase e = enc_from(c);
   Verdict v;
   uint64_t nch = nchunks_of(padded(e.P.size()), e.chunk);
@@ -93,6 +96,32 @@ static void fixed_c02(Ctx &ctx)
   // every (cmode, hmode) x T 1..16 with a single chunk and with T+1 chunks, canonical schedule
   const Prop *p = find_prop("C02");
   uint64_t i = 0;
+  if (ctx.mode == "prod")
+  {
+    // the chunk size is part of the format (it decides which stream enciphers which bytes) and in the hooked
+    // builds it is a run-time value: only the production binary shows what constant the program really uses
+    struct
+    {
+      int k, d, cm, hm;
+      bool quick;
+    } cases[] = {{1, 1, 1, 0, true}, {2, 0, 2, 1, true}, {1, -16, 3, 2, false}, {3, -1, 4, 0, false}, {5, 1, 1, 2, false}};
+    for (auto &pc : cases)
+    {
+      if (!pc.quick && !ctx.thorough())
+        continue;
+      if (!mine(ctx, i++))
+        continue;
+      Case c;
+      c.set("kind", "prod");
+      c.seti("k", pc.k);
+      c.seti("d", pc.d);
+      c.seti("cmode", pc.cm);
+      c.seti("hmode", pc.hm);
+      eval_fixed(*p, ctx, c);
+    }
+    ctx.stats.info["production_size_runs"] = "CLI binary with the guard off, 1-2 (thorough: up to 5) chunks of 16 MiB, T = 4; the written file must parse under the format specification";
+    return;
+  }
   // seeds found by search: the first IV (SHA-1 of the seed) ends in ..56ff / ..2cfff7 / ..baffffec / 97ffffff11,
   // so the CTR counter of a stream carries through 1 / 2 / 3 / 4 bytes within the first 256 blocks
   for (const char *sd : {"wv-seed-33", "wv-seed-897", "wv-seed-153636", "wv-ctr-86421"})
